@@ -178,7 +178,7 @@ func (g *G) returnStmt() {
 	if g.r.Chance(1, 3) && !g.noCalls {
 		var cands []string
 		for _, f := range g.callable() {
-			if f.Recv != nil || f.Rec || f.Variadic || (g.curPure && !f.Pure) || len(f.Results) != len(g.curResults) {
+			if f.Recv != nil || f.Rec || (g.curPure && !f.Pure) || len(f.Results) != len(g.curResults) {
 				continue
 			}
 			same := true
@@ -194,7 +194,8 @@ func (g *G) returnStmt() {
 			g.noCalls = true
 			args, ok := g.callArgs(f)
 			g.noCalls = save
-			if ok && !strings.Contains(args, "...") {
+			if ok {
+				// (also a variadic callee whose surplus arguments are spread from a slice)
 				cands = append(cands, g.fname(f)+"("+args+")")
 			}
 		}
